@@ -62,6 +62,8 @@ type ScenResult struct {
 	Expried      int            `json:"expried_notices"`
 	QueuedGrants int            `json:"grants_after_wait_ge_200us"`
 	GaveUp       int            `json:"client_gave_up"`
+	LateReplies  int            `json:"replies_later_than_patience"`
+	MaxLatencyMs int64          `json:"max_reply_latency_ms"`
 	ServerLocked [2]int         `json:"server_locked_count"` // two readings 1 s apart when they differ from the implied value
 	ServerWait   int            `json:"server_wait_count"`
 	Implied      int            `json:"implied_locked"`
@@ -366,7 +368,7 @@ func runScenario(s *Scenario, addr string) (ScenResult, []Violation) {
 	rc := &runCtx{s: s, addr: addr}
 	rc.patience = time.Duration(s.TimeoutS)*time.Second + 3*time.Second
 	for i := 0; i < s.BinConns; i++ {
-		bc, err := dialBin(i, addr, s.Init)
+		bc, err := dialBin(i, addr, s.Init, s.Db)
 		if err != nil {
 			res.Fatal = "dial: " + err.Error()
 			return res, nil
